@@ -72,6 +72,10 @@ void verif_init(void){
   g_attr.initialized = 1; g_attr.stacksize = 4096; g_attr.guardsize = 0; g_attr.child_first = 1; g_attr.n_workers = VN;
   FLp[0] = FLa[0]; FLp[1] = FLa[1]; FLp[2] = FLa[2]; FLp[3] = FLa[3];
   /* worker 0 has one record and one stack of each kind on its free lists, worker 1 too (for a second creation after migration) */
+  /* a record taken from a free list is a RECYCLED one: apart from its (free) lock it holds whatever its previous thread left behind */
+  TD1.detached = (uint8_t)nondet_long(); TD1.status = (myth_status_t)(nondet_long() & 7); TD1.join_thread = (nondet_long() & 1) ? &TD0 : 0;
+  TD1.cancelled = (uint8_t)nondet_long(); TD1.cancel_enabled = (uint8_t)nondet_long(); TD1.result = (void*)nondet_long(); TD1.entry_func = 0;
+  TD1.custom_data_size = (int)nondet_long(); TD1.stack = (void*)0; TD1.env = (nondet_long() & 1) ? &EV1 : &EV0;
   myth_spin_init_body(&TD1.lock); EV0.freelist_desc.head = (void*)&TD1; TD1.next = 0;
   STK1.slot0 = 0; STK1.blk_size = 0; EV0.freelist_stack.head = (void*)&STK1.slot0;
   FLa[0][12].head = (void*)&BIG1;
@@ -88,6 +92,9 @@ static inline int create_one(int k, myth_thread_t *id, myth_func_t fn){
   myth_thread_attr_t at;
   memset(&at, 0x5a, sizeof at);                       /* the caller's stack holds garbage */
   myth_thread_attr_init_body(&at);
+#if CREATE == 2 || CREATE == 3
+  myth_thread_attr_setstacksize_body(&at, 0);      /* default-size stack (the custom-size allocator path is CREATE == 1) */
+#endif
 #if CREATE == 2
   at.child_first = 0;
 #endif
